@@ -25,14 +25,15 @@ func checkTransportReplay(c *Ctx, rule string) {
 		if orig.Parent() != nil {
 			continue
 		}
-		newReq := allCalls(orig, func(ci ssa.CallInstruction) bool {
+		// (building the request and sending it may sit in helpers of their own: look at the view)
+		fn := p.View(orig)
+		newReq := allCalls(fn, func(ci ssa.CallInstruction) bool {
 			return calleeIs(ci, "net/http", "", "NewRequestWithContext") || calleeIs(ci, "net/http", "", "NewRequest")
 		})
-		do := allCalls(orig, func(ci ssa.CallInstruction) bool { return calleeIs(ci, "net/http", "Client", "Do") })
+		do := allCalls(fn, func(ci ssa.CallInstruction) bool { return calleeIs(ci, "net/http", "Client", "Do") })
 		if len(newReq) == 0 || len(do) == 0 {
 			continue
 		}
-		fn := p.View(orig)
 		name := FuncName(orig)
 		// GetBody cleared?
 		cleared := false
